@@ -355,7 +355,11 @@ class FactoredInference:
                     p = self.domain.size(proj)
                     Q = aslinearoperator(Q)
                     Q.dtype = np.dtype(Q.dtype)
-                    eig = eigsh(Q.H * Q, 1)[0][0]
+                    if Q.shape[1] == 1:
+                        # eigsh needs k < N; a 1x1 matrix is its own eigenvalue
+                        eig = float((Q.H * Q).matvec(np.ones(1))[0])
+                    else:
+                        eig = eigsh(Q.H * Q, 1)[0][0]
                     eigs[cl] += eig * n / p / noise**2
                     break
         return max(eigs.values())
